@@ -154,7 +154,7 @@ func c09Run(c c09Case) error {
 	nontriv := false
 	for _, k := range points {
 		for deliver := 0; deliver < 4; deliver++ {
-			for kindE := 0; kindE < 3; kindE++ {
+			for kindE := 0; kindE < 5; kindE++ {
 				for _, persist := range []bool{true, false} {
 					if kindE > 0 && deliver > 0 && !persist {
 						continue // thin out combinations that add nothing
